@@ -31,7 +31,8 @@ def _legal(n):
 NAME_POOL = [n for n in _RAW_POOL if _legal(n)]
 #: names that resemble names PyRates generates itself (x_v1, weight, r_in0, in_edge_0 ...)
 COLLISION_NAMES = [n for n in NAME_POOL if n in ("x_v1", "x_v2", "r_v1", "weight", "weight_in0", "r_in0", "u_in1",
-                                                  "s_in0", "x_in0", "k_d1", "v_d1_1", "in_edge_0", "m_in2")]
+                                                  "s_in0", "x_in0", "k_d1", "v_d1_1", "in_edge_0", "m_in2",
+                                                  "k")]
 PLAIN_NAMES = [n for n in NAME_POOL if n not in COLLISION_NAMES]
 
 
